@@ -26,8 +26,8 @@
 //!   0x10 = NEG_INFINITY (no data, deserializes to Float)
 //!   0x12 = NEG_INT (8 bytes big-endian i64)
 //!   0x13 = NEG_FLOAT (8 bytes f64 bits)
-//!   0x14 = ZERO (no data, deserializes to Int(0))
-//!   0x15 = POS_FLOAT (8 bytes f64 bits)
+//!   0x14 = ZERO (no data, integer zero only, deserializes to Int(0))
+//!   0x15 = POS_FLOAT (8 bytes f64 bits; also 0.0 and -0.0, so a Float stays a Float)
 //!   0x16 = POS_INT (8 bytes big-endian i64)
 //!   0x18 = POS_INFINITY (no data, deserializes to Float)
 //!   0x19 = NAN (no data, deserializes to Float)
@@ -169,8 +169,6 @@ impl RowSerde {
                 } else if *f < 0.0 {
                     buf.push(discriminant::NEG_FLOAT);
                     buf.extend_from_slice(&f.to_bits().to_be_bytes());
-                } else if *f == 0.0 {
-                    buf.push(discriminant::ZERO);
                 } else {
                     buf.push(discriminant::POS_FLOAT);
                     buf.extend_from_slice(&f.to_bits().to_be_bytes());
@@ -531,7 +529,7 @@ impl RowSerde {
                 }
             }
             Value::Float(f) => {
-                if f.is_nan() || *f == f64::NEG_INFINITY || *f == f64::INFINITY || *f == 0.0 {
+                if f.is_nan() || *f == f64::NEG_INFINITY || *f == f64::INFINITY {
                     1
                 } else {
                     1 + 8
